@@ -605,7 +605,33 @@ theorem eval_second {cfg : Cfg} (hst : cfg.style ≠ .core) :
                           refine ⟨sk1.trans sk2, fun l1' hh => ?_⟩
                           simp only [Except.ok.injEq] at hh; subst hh
                           exact ⟨by simp [push, hl.env_len], hl.res_sub, hl.cursors_eq, hl.kids_eq⟩
-
+    | nested body m V a =>
+      simp only [eval] at h ⊢
+      cases he : evalE x l.env a with
+      | error err => simp [he] at h
+      | ok av =>
+        simp only [he] at h
+        obtain ⟨av', hav'⟩ := evalE_ok_of_len (x' := x') hl.env_len a av he
+        simp only [hav']
+        by_cases hbs : badStructure V = true
+        · simp [hbs] at h
+        · simp only [hbs, Bool.false_eq_true, if_false] at h ⊢
+          cases hb : eval (nestedCfg cfg) fuel body [] av {} (Scope.bind m V ["params"]) with
+          | mk res si =>
+            rw [hb] at h
+            cases res with
+            | error e => simp at h
+            | ok li =>
+              simp only [Prod.mk.injEq, Except.ok.injEq] at h
+              obtain ⟨rfl, rfl⟩ := h
+              cases hb' : eval (nestedCfg cfg) fuel body [] av' {} (Scope.bind m V ["params"]) with
+              | mk res' ti =>
+                cases res' with
+                | error e => exact ⟨SameKeys.refl t, fun _ hh => by simp at hh⟩
+                | ok li' =>
+                  refine ⟨SameKeys.refl t, fun l1' hh => ?_⟩
+                  simp only [Except.ok.injEq] at hh; subst hh
+                  exact ⟨by simp [push, hl.env_len], hl.res_sub, hl.cursors_eq, hl.kids_eq⟩
 
 theorem runTop_second {cfg : Cfg} (hst : cfg.style ≠ .core) (fuel : Nat) (p : SProg) (x x' y : Int)
     (s s2 t : Store) (hf : FilterLe s t) (h : runTop cfg fuel p x s = (.ok y, s2)) (hk : KeysIn s2 t) :
